@@ -39,10 +39,10 @@ if rc != 0:
     print("PATCH DOES NOT APPLY to current HEAD:", out)
     sys.exit(3)
 demo = meta["demo_cmd"]
-rc0, out0 = sh(demo)
+rc0, out0 = sh(demo, cwd=wt)
 res["demo_without_patch_rc"] = rc0
 sh(f"git apply {src}/patch.diff", cwd=wt)
-rc1, out1 = sh(demo)
+rc1, out1 = sh(demo, cwd=wt)
 res["demo_with_patch_rc"] = rc1
 res["demo_with_patch_tail"] = out1[-600:]
 # existing tests with the patch (root module packages + CLI internal packages)
